@@ -62,13 +62,16 @@ impl Migrator {
 
         let text = resource_table::get_str_value(x.text).unwrap();
 
+        // `Token::column` counts characters, and after a line break inside the
+        // text the cursor stands behind the text's last line.
         let newlines_in_text = text.matches('\n').count() as u32;
         self.line += newlines_in_text;
-        let len = text.len() - text.rfind('\n').map(|x| x + 1).unwrap_or(0);
+        let last_line = text.rfind('\n').map(|x| &text[x + 1..]).unwrap_or(&text);
+        let len = last_line.chars().count() as u32;
         if newlines_in_text > 0 {
-            self.column = 1;
+            self.column = 1 + len;
         } else {
-            self.column += len as u32;
+            self.column += len;
         }
 
         self.str(&text);
